@@ -7,6 +7,7 @@ package media
 import (
 	"errors"
 	"strings"
+	"sync"
 	"sync/atomic"
 	"time"
 
@@ -51,6 +52,8 @@ type Stream struct {
 	status               int32  // 流状态
 	consumerSequenceSeed uint32
 	consumptions         consumptions // 消费者列表
+	joinLock             sync.Mutex   // cache+broadcast is atomic w.r.t. snapshot+register of a joining consumer
+	flvJoinLock          sync.Mutex   // the same for FLV tags
 	cache                packCache    // 媒体包缓存
 	rtpDemuxer           rtpDemuxer
 	flvMuxer             flvMuxer
@@ -210,9 +213,11 @@ func (s *Stream) WriteRtpPacket(packet *rtp.Packet) error {
 	atomic.AddUint64(&s.size, uint64(packet.Size()))
 	verifhook.Point("write.checked", 0)
 
+	s.joinLock.Lock()
 	keyframe := s.cache.CachePack(packet)
 	verifhook.Point("write.cached", 0)
 	s.consumptions.SendToAll(packet, keyframe)
+	s.joinLock.Unlock()
 
 	s.rtpDemuxer.WriteRtpPacket(packet)
 	return nil
@@ -239,9 +244,11 @@ func (s *Stream) WriteFlvTag(tag *flv.Tag) error {
 	}
 
 	verifhook.Point("flvwrite.checked", 0)
+	s.flvJoinLock.Lock()
 	keyframe := s.flvCache.CachePack(tag)
 	verifhook.Point("flvwrite.cached", 0)
 	s.flvConsumptions.SendToAll(tag, keyframe)
+	s.flvJoinLock.Unlock()
 	return nil
 }
 
@@ -279,16 +286,22 @@ func (s *Stream) startConsume(consumer Consumer, packetType PacketType, extra st
 
 	cs := &s.consumptions
 	cache := s.cache
+	joinLock := &s.joinLock
 	if packetType == FLVPacket {
 		cs = &s.flvConsumptions
 		cache = s.flvCache
+		joinLock = &s.flvJoinLock
 	}
 
+	// the cache snapshot and the registration must not interleave with a publish,
+	// otherwise the joiner sees a packet twice (cached and live) or not at all
+	joinLock.Lock()
 	if useGopCache {
 		c.sendGop(cache) // 新消费者，先发送gop缓存
 	}
 	verifhook.Point("attach.snapped", uint32(c.cid))
 	cs.Add(c)
+	joinLock.Unlock()
 	verifhook.Point("attach.added", uint32(c.cid))
 
 	go c.consume()
